@@ -27,10 +27,11 @@ package transaction
 //@     && (exists acct *account.Account :: built(tr.Postings[0], tr.Postings[1], posting.Builder{Credit: acct, Debit: p.Account, Commodity: p.Commodity, Quantity: q}))
 //
 //@ func expand
-//@   requires reg != nil && reg.accounts != nil && t != nil && accrual != nil
+//@   requires reg != nil && wfAccounts(reg.accounts) && t != nil && accrual != nil
 //@   requires inText(accrual.Account.Range) && inText(accrual.Start.Range) && inText(accrual.End.Range) && inText(accrual.Interval.Range)
 //@   requires forall i int :: {t.Postings[i]} 0 <= i && i < len(t.Postings) ==> t.Postings[i] != nil && validAccount(t.Postings[i].Account)
 //@   modifies reg.accounts.index[*]
+//@   ensures wfAccounts(reg.accounts)
 //@   ghost off []int = 0
 //@   ghost tot []real = 0
 //@   ghost sz []int = 0
@@ -73,15 +74,15 @@ package transaction
 //@     && inText(t.Addons.Accrual.Account.Range) && inText(t.Addons.Accrual.Start.Range) && inText(t.Addons.Accrual.End.Range) && inText(t.Addons.Accrual.Interval.Range)
 //
 //@ func Create
-//@   requires reg != nil && reg.accounts != nil && wfCommodities(reg.commodities) && reg.accounts.index != reg.commodities.index && syntaxOK(t)
-//@   ensures wfCommodities(reg.commodities)
+//@   requires reg != nil && wfAccounts(reg.accounts) && wfCommodities(reg.commodities) && reg.accounts.index != reg.commodities.index && syntaxOK(t)
+//@   ensures wfCommodities(reg.commodities) && wfAccounts(reg.accounts)
 //@   modifies reg.accounts.index[*], reg.commodities.index[*]
 //@   ensures result.1 == nil ==> (forall j int :: {result.0[j]} 0 <= j && j < len(result.0) ==> okPostings(result.0[j]))
 //@   callback expand=0
 //@   ensures [C10] @accrual: t.Addons.Accrual.Range.Start != t.Addons.Accrual.Range.End && result.1 == nil ==> tlen() == old(tlen()) + 1 && result.0 == tres("expand", old(tlen()))
 //@        && targ("expand", 2, old(tlen())) == &t.Addons.Accrual
 //@   ensures [C10] @plain: t.Addons.Accrual.Range.Start == t.Addons.Accrual.Range.End ==> tlen() == old(tlen()) && (result.1 == nil ==> len(result.0) == 1)
-//@   loop 1 invariant fresh(targets) && wfCommodities(reg.commodities) && tlen() == entry(tlen())
+//@   loop 1 invariant fresh(targets) && wfCommodities(reg.commodities) && wfAccounts(reg.accounts) && tlen() == entry(tlen())
 //
 // Compare: date, description, then the postings pairwise, then the number of postings; two
 // transactions tie only if they agree in all of these (so equal-comparing transactions print alike).
